@@ -24,8 +24,19 @@ mode=arr   arrival family.  One calendar text (6 events, rules, descriptions, on
            that must be the reference computed here.  big=1 adds a 70 KiB calendar (330 events; more than one buffer
            of echse) with cuts around 64 KiB, around every 4 KiB multiple and on a grid of 1013 bytes.
 
+mode=files chunk family.  echse reads every input in pieces of 65536 bytes (_inject_fd), so a calendar LARGER than that is
+           cut by echse itself, at fixed offsets, also when it is a regular file.  Calendars are built (filler events in
+           front, sized to the byte) so that the line feed that ends -- or folds -- one chosen content line of a target
+           event is byte number B+d of the text, B in {65536, 131072}, d in -3..+3 (d=0: the line feed is the last byte
+           of a piece and the folding blank the first byte of the next).  The chosen line is an RDATE list, an RRULE with
+           COUNT, the SUMMARY or DTSTART; it is unfolded, folded with SPACE or HTAB at a token boundary or inside a
+           token, or folded twice (the second fold at the boundary); line ends LF and CRLF.  Every text is unrolled
+           (1) as a FILE argument together with a second small calendar, (2) as a regular file on stdin, (3) on stdin
+           through a pipe in two pieces cut at B+d.  Oracle: the reference computed here by date arithmetic (RFC 5545
+           3.1: a line break followed by one blank is not there), each occurrence exactly once, in order.
+
 options (--opt k=v):
-  mode=reg|arr     family
+  mode=reg|arr|files   family
   len=N            mode=reg: longest sequence (default 4)
   big=0|1          mode=arr: include the 70 KiB text (default 1)
   echse=PATH       binary under test (default /repo/src/echse)
@@ -403,6 +414,143 @@ def arr_case(D, echse, base, name, text, cut, must, limit):
         D.sample('%s cut=%d -> %d occurrences, as from the regular file' % (name, cut, len(got)))
 
 
+# ------------------------------------------------------------------ chunk family (mode=files)
+
+CHUNK = 65536                       # sizeof(buf) in _inject_fd() of echse.c: the piece size for every kind of input
+FIL_BOUNDS = (CHUNK, 2 * CHUNK)
+FIL_DELTAS = (-3, -2, -1, 0, 1, 2, 3)
+FIL_EOLS = (('lf', '\n'), ('crlf', '\r\n'))
+# (name, blank of the fold at the boundary, where: 0 = token boundary / 1 = inside a token, an earlier fold as well)
+FIL_FORMS = (('none', None, None, False), ('sp-tok', ' ', 0, False), ('tab-tok', '\t', 0, False),
+             ('sp-mid', ' ', 1, False), ('tab-mid', '\t', 1, False), ('two', ' ', 1, True))
+TGT_UID, TGT_SUMM = 'target@c03', 'target summary'
+
+
+def _d9(day):
+    return datetime.datetime(2020, 1, day, 9, 0, 0)
+
+
+# target line in three parts s0 s1 s2: fold 0 lies between s0 and s1 (a token boundary), fold 1 between s1 and s2 (inside
+# a token); 'more' = further lines of the event; 'occ' = the instants of the event, by arithmetic
+FIL_TARGETS = (
+    ('rdate', ('RDATE:20200102T090000Z,20200103T090000Z', ',20200104T09', '0000Z,20200105T090000Z'), (),
+     [_d9(2), _d9(3), _d9(4), _d9(5)]),
+    ('rrule', ('RRULE:FREQ=DAILY;COUNT=4', ';INTER', 'VAL=2'), (),
+     [_d9(2), _d9(4), _d9(6), _d9(8)]),
+    ('summary', ('SUMMARY:target', ' sum', 'mary'), ('RRULE:FREQ=DAILY;COUNT=2',),
+     [_d9(2), _d9(3)]),
+    ('dtstart', ('DTSTART:', '20200102T09', '0000Z'), ('RRULE:FREQ=DAILY;COUNT=2',),
+     [_d9(2), _d9(3)]),
+)
+
+
+def fil_filler(i, k):
+    t = datetime.datetime(2019, 12, 31) + datetime.timedelta(minutes=i)
+    return Ev('fil-%04d@c03' % i, 'filler %04d' % i, t, 24, 2, ('DESCRIPTION:' + 'x' * k,))
+
+
+def fil_text(tgt, form, eol, T):
+    """-> (text, events-by-arithmetic) with the line feed that ends/folds the target line as byte number T (1-based)"""
+    tname, (s0, s1, s2), more, tocc = tgt
+    fname, blank, where, two = form
+    # the target line as physical lines; the LAST break inside `upto' is the one put on the boundary
+    if blank is None:
+        upto, rest = s0 + s1 + s2 + eol, ''
+    elif where == 0:
+        upto, rest = s0 + eol, blank + s1 + s2 + eol
+    elif two:
+        upto, rest = s0 + eol + ' ' + s1 + eol, blank + s2 + eol
+    else:
+        upto, rest = s0 + s1 + eol, blank + s2 + eol
+    # the event is UID, SUMMARY, DTSTART, rule or dates, LOCATION; the chosen line stands at its place in that order
+    key = s0.split(':')[0]
+    before = ['BEGIN:VEVENT', 'UID:' + TGT_UID]
+    after = []
+    if key == 'SUMMARY':
+        after.append('DTSTART:20200102T090000Z')
+    elif key == 'DTSTART':
+        before.append('SUMMARY:' + TGT_SUMM)
+    else:
+        before.extend(['SUMMARY:' + TGT_SUMM, 'DTSTART:20200102T090000Z'])
+    after = after + list(more) + ['LOCATION:shed', 'END:VEVENT']
+    tail_ev = Ev('after@c03', 'after the target', h(30), 24, 3, ('DESCRIPTION:follows the target event',))
+    head = 'BEGIN:VCALENDAR' + eol + 'VERSION:2.0' + eol + 'PRODID:-//verif//c03_cli//EN' + eol
+    tpre = ''.join(l + eol for l in before) + upto
+    tpost = rest + ''.join(l + eol for l in after + tail_ev.lines() + ['END:VCALENDAR'])
+    need = T - len(head) - len(tpre)
+    base = len(''.join(l + eol for l in fil_filler(0, 0).lines()))
+    n = need // (base + 60)
+    rem = need - n * base
+    fillers = [fil_filler(i, rem // n + (1 if i < rem % n else 0)) for i in range(n)]
+    text = (head + ''.join(l + eol for f in fillers for l in f.lines()) + tpre + tpost).encode()
+    # what was asked for is what was built
+    assert text[T - 1:T] == b'\n' and len(text) > T
+    assert (blank is None and text[T:T + 1] not in b' \t') or (blank is not None and text[T:T + 1] == blank.encode())
+    assert b'\\' not in text and max(len(l) for l in text.split(b'\n')) < 1000 and text.endswith(('END:VCALENDAR' + eol).encode())
+    occ = [(out_t(t), TGT_UID, TGT_SUMM) for t in tocc]
+    for e in fillers + [tail_ev]:
+        occ.extend(e.occ())
+    return text, sorted(occ)
+
+
+def fil_cases():
+    for B in FIL_BOUNDS:
+        for tgt in FIL_TARGETS:
+            for form in FIL_FORMS:
+                for eol in FIL_EOLS:
+                    for d in FIL_DELTAS:
+                        yield B, tgt, form, eol, d
+
+
+def fil_case(D, echse, base, B, tgt, form, eol, d, limit):
+    T = B + d
+    text, must = fil_text(tgt, form, eol[1], T)
+    small_ev = Ev('other@c03', 'other file', h(60), 24, 3)
+    D.desc('calendar of %d bytes (%s line ends; %d filler events, then the target event, then one more event): the %s line of the '
+           'target event is %s and the line feed of that break is byte %d+(%d) of the text, i.e. bytes %d.. are %r; echse '
+           'cuts every input at multiples of %d.  Runs: echse unroll big.ics small.ics | echse unroll < big.ics | '
+           'big.ics through a pipe in two pieces cut at byte %d  (rebuild the file with --only IDX --opt keep=1)'
+           % (len(text), eol[0], text.count(b'UID:fil-'), tgt[0],
+              {'none': 'not folded', 'sp-tok': 'folded with SPACE at a token boundary', 'tab-tok': 'folded with HTAB at a token boundary',
+               'sp-mid': 'folded with SPACE inside a token', 'tab-mid': 'folded with HTAB inside a token',
+               'two': 'folded twice with SPACE (the second break is the one meant)'}[form[0]],
+              B, d, T - 3, text[T - 4:T + 4], CHUNK, T))
+    desc0 = D.cdesc
+    fn, sfn, outfn = os.path.join(base, 'big.ics'), os.path.join(base, 'small.ics'), os.path.join(base, 'out')
+    with open(fn, 'wb') as f:
+        f.write(text)
+    with open(sfn, 'wb') as f:
+        f.write(calendar([small_ev], eol[1]))
+    D.nontrivial()
+    fold = 'none' if form[1] is None else 'two' if form[3] else 'blank'
+    brk = 'at-chunk-end' if d == 0 else 'near-chunk-end'
+    nv = 0
+    for how, cls, run, mst in (
+            ('arg+small', 'file', lambda: run_files(echse, [fn, sfn], outfn, limit), sorted(must + small_ev.occ())),
+            ('stdin-file', 'file', lambda: run_stdin_file(echse, fn, outfn, limit), must),
+            ('pipe-cut', 'pipe', lambda: run_two_pieces(echse, text[:T], text[T:], outfn, limit), must)):
+        # the cut of the pipe falls right behind the line feed whatever d is (echse's own cut is d bytes from it)
+        shape = 'line=%s/fold=%s/brk=%s/how=%s' % (tgt[0], fold, 'at-pipe-cut' if cls == 'pipe' else brk, cls)
+        D.desc(desc0 + '  [this run: %s]' % how)
+        r = run()
+        D.count('runs')
+        if r.hang:
+            D.viol('files-hang/' + shape, '%s: echse unroll did not take its input or did not end within %g s' % (how, limit))
+            nv += 1
+            continue
+        if r.status != 'exit0':
+            D.viol('files-exit/%s/%s' % (r.status, shape), '%s: echse unroll ended with %s' % (how, r.status))
+            nv += 1
+            continue
+        got, bad = parse_out(r.out)
+        n, _ = judge(D, 'files', shape, got, bad, mst, [], uclass=lambda m: 'target' if m[1] == TGT_UID else 'other')
+        nv += n
+        D.count('occurrences', len(got))
+    if not nv and d == 0 and form[0] in ('sp-tok', 'two'):
+        D.sample('%s/%s/%s line feed = byte %d of %d: %d occurrences in each of the three readings (+3 from the second file)'
+                 % (tgt[0], form[0], eol[0], T, len(text), len(must)))
+
+
 # ------------------------------------------------------------------ main
 
 def main():
@@ -436,6 +584,14 @@ def main():
                     arr_case(D, echse, base, name, text, cut, must, limit)
                     if D.stop():
                         break
+                if D.stop():
+                    break
+        elif mode == 'files':
+            limit = min(limit, 8.0)
+            for B, tgt, form, eol, d in fil_cases():
+                if not D.next():
+                    continue
+                fil_case(D, echse, base, B, tgt, form, eol, d, limit)
                 if D.stop():
                     break
         else:
